@@ -71,7 +71,8 @@ TraceInit ==
     /\ pex = {}
     /\ att = [a \in Accounts |-> <<>>]
     /\ lock = 0
-    /\ olds, tipd = <<>>
+    /\ olds = <<>>
+    /\ tipd = -2
     /\ sess = [s \in Sessions |-> IdleS]
     /\ act = [op |-> "Init"]
     /\ reply = NoneR
